@@ -38,12 +38,24 @@ type av struct {
 	unknown  bool     // nothing is known
 }
 
-func avUnknown() av          { return av{unknown: true, b: triUnknown, isNil: triUnknown, nonEmpty: triUnknown, sign: sgAny} }
-func avBool(t tri) av        { return av{isBool: true, b: t, isNil: triUnknown, nonEmpty: triUnknown, sign: sgAny} }
-func avSym(s string) av      { a := avUnknown(); a.unknown = false; a.syms = []string{s}; return a }
-func avSlice(n, ne tri) av   { return av{isSlice: true, isNil: n, nonEmpty: ne, b: triUnknown, sign: sgAny} }
-func avIntConst(k int64) av  { a := av{isInt: true, c: &k, b: triUnknown, isNil: triUnknown, nonEmpty: triUnknown}; a.sign = signOf(k); return a }
-func avIntSign(s uint8) av   { return av{isInt: true, sign: s, b: triUnknown, isNil: triUnknown, nonEmpty: triUnknown} }
+func avUnknown() av {
+	return av{unknown: true, b: triUnknown, isNil: triUnknown, nonEmpty: triUnknown, sign: sgAny}
+}
+func avBool(t tri) av {
+	return av{isBool: true, b: t, isNil: triUnknown, nonEmpty: triUnknown, sign: sgAny}
+}
+func avSym(s string) av { a := avUnknown(); a.unknown = false; a.syms = []string{s}; return a }
+func avSlice(n, ne tri) av {
+	return av{isSlice: true, isNil: n, nonEmpty: ne, b: triUnknown, sign: sgAny}
+}
+func avIntConst(k int64) av {
+	a := av{isInt: true, c: &k, b: triUnknown, isNil: triUnknown, nonEmpty: triUnknown}
+	a.sign = signOf(k)
+	return a
+}
+func avIntSign(s uint8) av {
+	return av{isInt: true, sign: s, b: triUnknown, isNil: triUnknown, nonEmpty: triUnknown}
+}
 func signOf(k int64) uint8 {
 	switch {
 	case k < 0:
